@@ -345,20 +345,26 @@ func (s *Server) publishDiagnosticsVersion(ctx context.Context, docURI protocol.
 		if err.Kind == include.ErrorParseError {
 			continue
 		}
+		// an error of a directive inside an included file has positions of that
+		// file: in this document it is shown on the directive that leads there
+		errRange, message := err.Range, err.Message
+		if err.File != "" && err.File != path {
+			errRange, message = err.RootRange, filepath.Base(err.File)+": "+err.Message
+		}
 		diagnostics = append(diagnostics, protocol.Diagnostic{
 			Range: protocol.Range{
 				Start: protocol.Position{
-					Line:      uint32(max(0, err.Range.Start.Line-1)),
-					Character: uint32(max(0, err.Range.Start.Column-1)),
+					Line:      uint32(max(0, errRange.Start.Line-1)),
+					Character: uint32(max(0, errRange.Start.Column-1)),
 				},
 				End: protocol.Position{
-					Line:      uint32(max(0, err.Range.End.Line-1)),
-					Character: uint32(max(0, err.Range.End.Column-1)),
+					Line:      uint32(max(0, errRange.End.Line-1)),
+					Character: uint32(max(0, errRange.End.Column-1)),
 				},
 			},
 			Severity: severity,
 			Source:   "hledger-lsp",
-			Message:  err.Message,
+			Message:  message,
 		})
 	}
 
